@@ -855,7 +855,7 @@ Proof.
 Qed.
 
 (* ---- row-major order, each point once ---------------------------------------------------------------- *)
-Definition lt_yx (a b : point) : Prop := py a < py b \/ (py a = py b /\ px a < px b).
+(* lt_yx (row-major order on points) is Proofs.Geometry.lt_yx *)
 
 Lemma StronglySorted_app {A} (R : A -> A -> Prop) l1 l2 :
   StronglySorted R l1 -> StronglySorted R l2 -> (forall a b, In a l1 -> In b l2 -> R a b) ->
@@ -1022,14 +1022,8 @@ Proof.
       apply on_edge_in_sorted_edge; assumption.
 Qed.
 
-(* OPEN (C05 triangle, subset direction; C19 tri_within_one_pixel):
-     forall t q, tri_ok t -> area_doubled t <> 0 -> In q (tri_points t) -> tri_contains t q = true.
-   By tri_contains_spec and points_between_edge_pixels this is equivalent to the purely geometric statement
-     "a lattice point that lies in its row between two Bresenham pixels of the sorted edges is in the closed
-      triangle or is itself such a pixel",
-   which needs, per row, that the pixels of one edge form a run that reaches from the edge's ideal crossing to the
-   pixel farthest outside - a case analysis over steep/shallow edges and the three vertex rows that is not done.
-   Compared exhaustively (7x7 grid, all vertex triples) and at random by the suites p_tri_c05 / p_tri. *)
+(* The subset direction (every yielded point is accepted by contains()) is proved in section 7:
+   points_closed_or_edge, points_in_contains, tri_points_filter_contains. *)
 
 (* ======================================================================== *)
 (* 6. points() as a specification; translation                              *)
@@ -1176,4 +1170,300 @@ Proof.
   change (L (padd (v1 st) d) (padd (v2 st) d)) with (translate_line (L (v1 st) (v2 st)) d).
   change (L (padd (v2 st) d) (padd (v3 st) d)) with (translate_line (L (v2 st) (v3 st)) d).
   rewrite !line_points_translate, <- !map_app. apply existsb_point_translate.
+Qed.
+
+(* ======================================================================== *)
+(* 7. every yielded point is in the closed triangle or is an edge pixel        *)
+(* ======================================================================== *)
+
+Lemma point_eta (p : point) : p = P (px p) (py p).
+Proof. destruct p as [x y]. reflexivity. Qed.
+
+(* the pixels of a line in one row form a run without holes *)
+Lemma line_row_run l a b x y : 0 <= ldy l ->
+  In (P a y) (line_points l) -> In (P b y) (line_points l) -> a <= x <= b -> In (P x y) (line_points l).
+Proof.
+  intros Hy Ha Hb Hx. pose proof Ha as Ha0. pose proof (ldm_ok l) as Hd.
+  apply In_line_points in Ha, Hb. destruct Ha as (ka & Hka & Ea), Hb as (kb & Hkb & Eb).
+  assert (S1 : sgn (ldy l) = 1) by (unfold sgn; destruct (0 <=? ldy l) eqn:E; lia).
+  pose proof (f_equal px Ea) as Xa. pose proof (f_equal py Ea) as Ya.
+  pose proof (f_equal px Eb) as Xb. pose proof (f_equal py Eb) as Yb.
+  rewrite line_pt_x in Xa, Xb. rewrite line_pt_y in Ya, Yb. cbn [px py] in *. rewrite S1 in *.
+  destruct (y_major l) eqn:YM.
+  - assert (ka = kb) by lia. subst kb. assert (x = a) by lia. subst x. exact Ha0.
+  - set (s := sgn (ldx l)) in *.
+    assert (Hs : s = 1 \/ s = -1) by (unfold s, sgn; destruct (0 <=? ldx l); auto).
+    set (k := (x - px (l_start l)) * s).
+    assert (Hk : (ka <= k <= kb) \/ (kb <= k <= ka)) by (unfold k; destruct Hs as [-> | ->]; lia).
+    assert (Hk0 : 0 <= k <= ldmaj l) by lia.
+    assert (HM : Mk (ldmaj l) (ldmin l) k = Mk (ldmaj l) (ldmin l) ka).
+    { destruct Hk as [Hk|Hk].
+      - pose proof (Mk_mono _ _ Hd ka k ltac:(lia)). pose proof (Mk_mono _ _ Hd k kb ltac:(lia)). lia.
+      - pose proof (Mk_mono _ _ Hd kb k ltac:(lia)). pose proof (Mk_mono _ _ Hd k ka ltac:(lia)). lia. }
+    apply In_line_points. exists k. split; [assumption|].
+    rewrite (point_eta (line_pt l k)), line_pt_x, line_pt_y, YM, S1, HM. fold s. f_equal; [|lia].
+    unfold k. destruct Hs as [-> | ->]; lia.
+Qed.
+
+(* the run of a row reaches from its outermost pixel at least to the ideal crossing *)
+Lemma edge_pixel_ge l a x y : 0 < ldy l ->
+  In (P a y) (line_points l) -> a <= x -> cross_to l (P x y) <= 0 -> In (P x y) (line_points l).
+Proof.
+  intros Hy Ha Hx Hc. pose proof (line_points_hull l _ Ha) as [_ Hr]. cbn [py] in Hr. unfold ldy in Hy.
+  destruct (line_row_pixel l y ltac:(unfold ldy; lia) ltac:(lia)) as (p & Hp & Hpy & Hpc).
+  apply (line_row_run l a (px p)); [unfold ldy; lia | assumption | rewrite <- Hpy, <- point_eta; assumption |].
+  split; [assumption|]. unfold cross_to in *. cbn [px py] in *. rewrite Hpy in Hpc.
+  set (dy := ldy l) in *. assert (0 < dy) by (unfold dy, ldy; lia).
+  set (dx := ldx l) in *. set (sx := px (l_start l)) in *. set (sy := py (l_start l)) in *. clearbody dy dx sx sy.
+  assert (D : (px p - sx) * dy - (y - sy) * dx = ((x - sx) * dy - (y - sy) * dx) + (px p - x) * dy) by lia.
+  rewrite D in Hpc. nia.
+Qed.
+
+Lemma edge_pixel_le l b x y : 0 < ldy l ->
+  In (P b y) (line_points l) -> x <= b -> 0 <= cross_to l (P x y) -> In (P x y) (line_points l).
+Proof.
+  intros Hy Hb Hx Hc. pose proof (line_points_hull l _ Hb) as [_ Hr]. cbn [py] in Hr. unfold ldy in Hy.
+  destruct (line_row_pixel l y ltac:(unfold ldy; lia) ltac:(lia)) as (p & Hp & Hpy & Hpc).
+  apply (line_row_run l (px p) b); [unfold ldy; lia | rewrite <- Hpy, <- point_eta; assumption | assumption |].
+  split; [|assumption]. unfold cross_to in *. cbn [px py] in *. rewrite Hpy in Hpc.
+  set (dy := ldy l) in *. assert (0 < dy) by (unfold dy, ldy; lia).
+  set (dx := ldx l) in *. set (sx := px (l_start l)) in *. set (sy := py (l_start l)) in *. clearbody dy dx sx sy.
+  assert (D : (px p - sx) * dy - (y - sy) * dx = ((x - sx) * dy - (y - sy) * dx) + (px p - x) * dy) by lia.
+  rewrite D in Hpc. nia.
+Qed.
+
+(* two non-negative weights at the far vertices of a cone, apex row distance k <= h <= H *)
+Lemma cone_arith A da db h H k :
+  0 < h <= H -> 0 <= k <= h -> A * k = da * h + db * H -> 0 <= da -> 0 <= db ->
+  0 <= A - da - db \/ (da = 0 /\ db = 0 /\ A <= 0).
+Proof.
+  intros Hh Hk E Ha Hb. destruct (Z_le_gt_dec 0 A) as [HA|HA].
+  - left. assert (B1 : db * h <= db * H) by nia. assert (B2 : A * k <= A * h) by nia.
+    assert (B3 : (da + db) * h <= A * h) by lia. nia.
+  - right. assert (B1 : A * k <= 0) by nia. assert (B2 : 0 <= da * h) by nia. assert (B3 : 0 <= db * H) by nia.
+    assert (da * h = 0) by lia. assert (db * H = 0) by lia. split; [nia|]. split; [nia|lia].
+Qed.
+
+(* a point between the lines v1v2 and v1v3, in a row between v1 and v2, is in the closed triangle
+   (d1 = cross v1 v2 q, d3 = cross v3 v1 q have the same sign) *)
+Lemma between_12_13 s q :
+  py (v1 s) < py (v2 s) -> py (v2 s) <= py (v3 s) -> py (v1 s) <= py q <= py (v2 s) ->
+  (0 <= cross (v1 s) (v2 s) q /\ 0 <= cross (v3 s) (v1 s) q) \/
+  (cross (v1 s) (v2 s) q <= 0 /\ cross (v3 s) (v1 s) q <= 0) ->
+  in_closed_tri s q.
+Proof.
+  intros H12 H23 Hq Hd. pose proof (cross_sum s q) as S. pose proof (bary_y s q) as BY.
+  unfold in_closed_tri. cbv zeta.
+  set (d1 := cross (v1 s) (v2 s) q) in *. set (d2 := cross (v2 s) (v3 s) q) in *. set (d3 := cross (v3 s) (v1 s) q) in *.
+  set (A := area_doubled s) in *. set (y1 := py (v1 s)) in *. set (y2 := py (v2 s)) in *. set (y3 := py (v3 s)) in *.
+  set (qy := py q) in *. clearbody d1 d2 d3 A y1 y2 y3 qy.
+  assert (E : A * (qy - y1) = d3 * (y2 - y1) + d1 * (y3 - y1)) by lia.
+  destruct Hd as [[D1 D3] | [D1 D3]].
+  - destruct (cone_arith A d3 d1 (y2 - y1) (y3 - y1) (qy - y1)) as [G | (G1 & G2 & G3)]; try lia.
+  - assert (E' : (- A) * (qy - y1) = (- d3) * (y2 - y1) + (- d1) * (y3 - y1)) by lia.
+    destruct (cone_arith (- A) (- d3) (- d1) (y2 - y1) (y3 - y1) (qy - y1)) as [G | (G1 & G2 & G3)]; try lia.
+Qed.
+
+Lemma between_23_13 s q :
+  py (v2 s) < py (v3 s) -> py (v1 s) <= py (v2 s) -> py (v2 s) <= py q <= py (v3 s) ->
+  (0 <= cross (v2 s) (v3 s) q /\ 0 <= cross (v3 s) (v1 s) q) \/
+  (cross (v2 s) (v3 s) q <= 0 /\ cross (v3 s) (v1 s) q <= 0) ->
+  in_closed_tri s q.
+Proof.
+  intros H23 H12 Hq Hd. pose proof (cross_sum s q) as S. pose proof (bary_y s q) as BY.
+  unfold in_closed_tri. cbv zeta.
+  set (d1 := cross (v1 s) (v2 s) q) in *. set (d2 := cross (v2 s) (v3 s) q) in *. set (d3 := cross (v3 s) (v1 s) q) in *.
+  set (A := area_doubled s) in *. set (y1 := py (v1 s)) in *. set (y2 := py (v2 s)) in *. set (y3 := py (v3 s)) in *.
+  set (qy := py q) in *. clearbody d1 d2 d3 A y1 y2 y3 qy.
+  assert (E : A * (y3 - qy) = d3 * (y3 - y2) + d2 * (y3 - y1)) by lia.
+  destruct Hd as [[D2 D3] | [D2 D3]].
+  - destruct (cone_arith A d3 d2 (y3 - y2) (y3 - y1) (y3 - qy)) as [G | (G1 & G2 & G3)]; try lia.
+  - assert (E' : (- A) * (y3 - qy) = (- d3) * (y3 - y2) + (- d2) * (y3 - y1)) by lia.
+    destruct (cone_arith (- A) (- d3) (- d2) (y3 - y2) (y3 - y1) (y3 - qy)) as [G | (G1 & G2 & G3)]; try lia.
+Qed.
+
+(* a point on the line v1v3 in a row between them is in the closed triangle *)
+Lemma on_long_edge_closed s q :
+  py (v1 s) < py (v3 s) -> py (v1 s) <= py q <= py (v3 s) -> cross (v3 s) (v1 s) q = 0 -> in_closed_tri s q.
+Proof.
+  intros H13 Hq H0. pose proof (cross_sum s q) as S. pose proof (bary_y s q) as BY.
+  unfold in_closed_tri. cbv zeta. rewrite H0 in *.
+  set (d1 := cross (v1 s) (v2 s) q) in *. set (d2 := cross (v2 s) (v3 s) q) in *.
+  set (A := area_doubled s) in *. set (y1 := py (v1 s)) in *. set (y2 := py (v2 s)) in *. set (y3 := py (v3 s)) in *.
+  set (qy := py q) in *. clearbody d1 d2 A y1 y2 y3 qy.
+  assert (E1 : d1 * (y3 - y1) = A * (qy - y1)) by lia.
+  assert (E2 : d2 * (y3 - y1) = A * (y3 - qy)) by lia.
+  destruct (Z_le_gt_dec 0 A) as [HA|HA]; [left|right]; repeat split; try lia; nia.
+Qed.
+
+(* In a row of the triangle, a lattice point is in the closed triangle, or strictly left of the lines of all
+   non-horizontal sorted edges that reach the row, or strictly right of all of them (the slice of the triangle in
+   a row is the interval between the extreme crossings). *)
+Lemma row_slice s q : sorted3 s -> py (v1 s) < py (v3 s) -> py (v1 s) <= py q <= py (v3 s) ->
+  let c12 := cross_to (L (v1 s) (v2 s)) q in
+  let c13 := cross_to (L (v1 s) (v3 s)) q in
+  let c23 := cross_to (L (v2 s) (v3 s)) q in
+  in_closed_tri s q \/
+  (c13 < 0 /\ (py (v1 s) < py (v2 s) -> py q <= py (v2 s) -> c12 < 0) /\
+              (py (v2 s) < py (v3 s) -> py (v2 s) <= py q -> c23 < 0)) \/
+  (0 < c13 /\ (py (v1 s) < py (v2 s) -> py q <= py (v2 s) -> 0 < c12) /\
+              (py (v2 s) < py (v3 s) -> py (v2 s) <= py q -> 0 < c23)).
+Proof.
+  intros [S12 S23] H13 Hq. cbv zeta.
+  rewrite (cross_to_cross (v1 s) (v2 s) q), (cross_to_cross (v2 s) (v3 s) q), (cross_to_cross_rev (v1 s) (v3 s) q).
+  assert (Y12 : py (v1 s) <= py (v2 s)) by (unfold le_yx in S12; lia).
+  assert (Y23 : py (v2 s) <= py (v3 s)) by (unfold le_yx in S23; lia).
+  pose proof (on_long_edge_closed s q H13 Hq) as L0.
+  pose proof (between_12_13 s q) as L1. pose proof (between_23_13 s q) as L2.
+  set (d1 := cross (v1 s) (v2 s) q) in *. set (d2 := cross (v2 s) (v3 s) q) in *. set (d3 := cross (v3 s) (v1 s) q) in *.
+  destruct (Z.lt_trichotomy d3 0) as [N | [Z0 | Pz]].
+  - (* left of the long edge *)
+    destruct (Z_lt_le_dec (py (v1 s)) (py (v2 s))) as [A1|A1];
+    destruct (Z_le_gt_dec (py q) (py (v2 s))) as [A2|A2];
+    destruct (Z_lt_le_dec (py (v2 s)) (py (v3 s))) as [B1|B1];
+    destruct (Z_le_gt_dec (py (v2 s)) (py q)) as [B2|B2];
+    try (destruct (Z_lt_le_dec 0 d1) as [C1|C1]; [|left; apply L1; lia]);
+    try (destruct (Z_lt_le_dec 0 d2) as [C2|C2]; [|left; apply L2; lia]);
+    right; left; repeat split; lia.
+  - left. apply L0. assumption.
+  - destruct (Z_lt_le_dec (py (v1 s)) (py (v2 s))) as [A1|A1];
+    destruct (Z_le_gt_dec (py q) (py (v2 s))) as [A2|A2];
+    destruct (Z_lt_le_dec (py (v2 s)) (py (v3 s))) as [B1|B1];
+    destruct (Z_le_gt_dec (py (v2 s)) (py q)) as [B2|B2];
+    try (destruct (Z_lt_le_dec d1 0) as [C1|C1]; [|left; apply L1; lia]);
+    try (destruct (Z_lt_le_dec d2 0) as [C2|C2]; [|left; apply L2; lia]);
+    right; right; repeat split; lia.
+Qed.
+
+(* tri_within_one_pixel / C05 subset direction: every point yielded by points() (non-zero area) lies in the closed
+   mathematical triangle or is a Bresenham pixel of one of the three sorted edges (which C17 places within half a
+   pixel of the edge) *)
+Theorem points_closed_or_edge t q : tri_ok t -> area_doubled t <> 0 -> In q (tri_points t) ->
+  in_closed_tri t q \/ In q (tri_fill_edges t).
+Proof.
+  intros Hok Ha Hq.
+  destruct (points_between_edge_pixels t q Hok Hq) as (a & b & Hpa & Hpb & Hab).
+  destruct (sorted_yx_spec t) as [Hp Hs].
+  assert (Ha' : area_doubled (sorted_yx t) <> 0) by (pose proof (area_doubled_perm _ _ Hp); lia).
+  pose proof (sorted_ys t) as Hys. cbv zeta in Hys.
+  assert (Hlong : py (v1 (sorted_yx t)) < py (v3 (sorted_yx t))).
+  { destruct (Z.eq_dec (py (v1 (sorted_yx t))) (py (v3 (sorted_yx t)))) as [E|E]; [|lia].
+    exfalso. apply Ha'. apply flat_sorted_zero_area; assumption. }
+  assert (Hrow : py (v1 (sorted_yx t)) <= py q <= py (v3 (sorted_yx t))).
+  { pose proof (fill_edges_in_bbox t _ Hpa) as C. apply contains_spec in C.
+    pose proof (sorted_bbox_coords t) as B. cbv zeta in B. cbn [py] in C. lia. }
+  assert (Efill : tri_fill_edges t = tri_edge_points t).
+  { unfold tri_fill_edges. assert (E : (area_doubled t =? 0) = false) by lia. rewrite E. reflexivity. }
+  rewrite Efill in *. unfold tri_edge_points in *.
+  destruct (row_slice (sorted_yx t) q Hs Hlong Hrow) as [Hc | [HL | HR]].
+  - left. apply (in_closed_tri_perm _ _ q (perm3_sym _ _ Hp)). assumption.
+  - (* strictly left of every edge line: the leftmost edge pixel a gives the owner of q *)
+    right. destruct HL as (C13 & C12 & C23). unfold sorted3, le_yx in Hs.
+    set (p1 := v1 (sorted_yx t)) in *. set (p2 := v2 (sorted_yx t)) in *. set (p3 := v3 (sorted_yx t)) in *.
+    rewrite (point_eta q) in C13, C12, C23 |- *. cbn [px py] in C12, C23. set (x := px q) in *. set (y := py q) in *.
+    rewrite !in_app_iff in Hpa |- *. destruct Hpa as [H|[H|H]].
+    + (* a on p1-p2 *)
+      pose proof (line_points_hull _ _ H) as [Hx Hy]. cbn [l_start l_end px py] in Hx, Hy.
+      destruct (Z_lt_le_dec (py p1) (py p2)) as [T|T].
+      * left. apply (edge_pixel_ge (L p1 p2) a); [unfold ldy; cbn [l_start l_end]; lia | assumption | lia |].
+        assert (cross_to (L p1 p2) (P x y) < 0) by (apply C12; lia). lia.
+      * exfalso. unfold cross_to, ldx, ldy in C13. cbn [l_start l_end px py] in C13.
+        assert (y = py p1) by lia. assert (px p1 <= px p2) by lia.
+        assert (E : (x - px p1) * (py p3 - py p1) - (y - py p1) * (px p3 - px p1) = (x - px p1) * (py p3 - py p1)) by nia.
+        rewrite E in C13. nia.
+    + right; left. apply (edge_pixel_ge (L p1 p3) a); [unfold ldy; cbn [l_start l_end]; lia | assumption | lia | lia].
+    + pose proof (line_points_hull _ _ H) as [Hx Hy]. cbn [l_start l_end px py] in Hx, Hy.
+      right; right. destruct (Z_lt_le_dec (py p2) (py p3)) as [T|T].
+      * apply (edge_pixel_ge (L p2 p3) a); [unfold ldy; cbn [l_start l_end]; lia | assumption | lia |].
+        assert (cross_to (L p2 p3) (P x y) < 0) by (apply C23; lia). lia.
+      * assert (y = py p3) by lia. assert (py p2 = py p3) by lia. assert (px p2 <= px p3) by lia.
+        unfold cross_to, ldx, ldy in C13. cbn [l_start l_end px py] in C13.
+        assert (E : (x - px p1) * (py p3 - py p1) - (y - py p1) * (px p3 - px p1) = (x - px p3) * (py p3 - py p1)) by nia.
+        rewrite E in C13. assert (x < px p3) by nia.
+        replace (P x y) with (P x (py (l_start (L p2 p3)))) by (cbn [l_start]; f_equal; lia).
+        apply line_horizontal_pixels; unfold ldy, ldx; cbn [l_start l_end]; lia.
+  - (* strictly right of every edge line: the rightmost edge pixel b *)
+    right. destruct HR as (C13 & C12 & C23). unfold sorted3, le_yx in Hs.
+    set (p1 := v1 (sorted_yx t)) in *. set (p2 := v2 (sorted_yx t)) in *. set (p3 := v3 (sorted_yx t)) in *.
+    rewrite (point_eta q) in C13, C12, C23 |- *. cbn [px py] in C12, C23. set (x := px q) in *. set (y := py q) in *.
+    rewrite !in_app_iff in Hpb |- *. destruct Hpb as [H|[H|H]].
+    + pose proof (line_points_hull _ _ H) as [Hx Hy]. cbn [l_start l_end px py] in Hx, Hy.
+      left. destruct (Z_lt_le_dec (py p1) (py p2)) as [T|T].
+      * apply (edge_pixel_le (L p1 p2) b); [unfold ldy; cbn [l_start l_end]; lia | assumption | lia |].
+        assert (0 < cross_to (L p1 p2) (P x y)) by (apply C12; lia). lia.
+      * assert (y = py p1) by lia. assert (py p1 = py p2) by lia. assert (px p1 <= px p2) by lia.
+        unfold cross_to, ldx, ldy in C13. cbn [l_start l_end px py] in C13.
+        assert (E : (x - px p1) * (py p3 - py p1) - (y - py p1) * (px p3 - px p1) = (x - px p1) * (py p3 - py p1)) by nia.
+        rewrite E in C13. assert (px p1 < x) by nia.
+        replace (P x y) with (P x (py (l_start (L p1 p2)))) by (cbn [l_start]; f_equal; lia).
+        apply line_horizontal_pixels; unfold ldy, ldx; cbn [l_start l_end]; lia.
+    + right; left. apply (edge_pixel_le (L p1 p3) b); [unfold ldy; cbn [l_start l_end]; lia | assumption | lia | lia].
+    + pose proof (line_points_hull _ _ H) as [Hx Hy]. cbn [l_start l_end px py] in Hx, Hy.
+      destruct (Z_lt_le_dec (py p2) (py p3)) as [T|T].
+      * right; right. apply (edge_pixel_le (L p2 p3) b); [unfold ldy; cbn [l_start l_end]; lia | assumption | lia |].
+        assert (0 < cross_to (L p2 p3) (P x y)) by (apply C23; lia). lia.
+      * exfalso. assert (y = py p3) by lia. assert (py p2 = py p3) by lia. assert (px p2 <= px p3) by lia.
+        unfold cross_to, ldx, ldy in C13. cbn [l_start l_end px py] in C13.
+        assert (E : (x - px p1) * (py p3 - py p1) - (y - py p1) * (px p3 - px p1) = (x - px p3) * (py p3 - py p1)) by nia.
+        rewrite E in C13. nia.
+Qed.
+
+(* C05, triangle, subset direction *)
+Theorem points_in_contains t q : tri_ok t -> area_doubled t <> 0 -> In q (tri_points t) -> tri_contains t q = true.
+Proof.
+  intros Hok Ha Hq. apply tri_contains_spec; try assumption. apply points_closed_or_edge; assumption.
+Qed.
+
+(* C05 for triangles: points() is exactly the row-major filter of contains() over the bounding box *)
+Theorem tri_points_filter_contains t : tri_ok t -> area_doubled t <> 0 ->
+  tri_points t = filter (tri_contains t) (points (tri_bounding_box t)).
+Proof.
+  intros Hok Ha.
+  assert (Hbb : rect_ok (tri_bounding_box t)).
+  { destruct Hok as (A & B & C). destr_tri t. unfold tri_bounding_box, with_corners, size_from_bounding_box, rect_ok,
+      point_ok, size_ok, bound, tpoint_ok, tbound in *. cbn [v1 v2 v3 px py tl sz sw sh] in *. lia. }
+  apply sorted_lt_ext.
+  - apply tri_points_row_major. assumption.
+  - pose proof (points_sorted _ Hbb) as Hs.
+    induction Hs as [|x l Hs IH Hx]; cbn [filter]; [constructor|].
+    destruct (tri_contains t x); [constructor|]; try assumption.
+    rewrite Forall_forall in *. intros z Hz. apply filter_In in Hz. apply Hx, Hz.
+  - intros q. rewrite filter_In. split.
+    + intros Hq. split; [|apply points_in_contains; assumption].
+      apply points_spec; [assumption|]. apply points_in_bbox; assumption.
+    + intros [_ Hc]. apply contains_in_points; assumption.
+Qed.
+
+(* tri_within_one_pixel (DESIGN C19) in Euclidean form: a yielded point outside the closed triangle is a Bresenham pixel
+   of a sorted edge l, hence within HALF a pixel of the segment: dist^2 = cross^2 / |d|^2 <= 1/4 and the foot of the
+   perpendicular lies on the segment (0 <= dot <= |d|^2) *)
+Definition near_edge (l : line) (q : point) : Prop :=
+  4 * (cross_to l q * cross_to l q) <= ldx l * ldx l + ldy l * ldy l /\
+  0 <= dot_to l q <= ldx l * ldx l + ldy l * ldy l.
+
+Lemma line_pixel_near l q : In q (line_points l) -> near_edge l q.
+Proof.
+  intros H. apply In_nth_error in H. destruct H as [i Hi]. split.
+  - eapply line_euclid_half; eassumption.
+  - eapply line_within_ends; eassumption.
+Qed.
+
+Theorem points_within_half_pixel t q : tri_ok t -> area_doubled t <> 0 -> In q (tri_points t) ->
+  in_closed_tri t q \/
+  let st := sorted_yx t in
+  near_edge (L (v1 st) (v2 st)) q \/ near_edge (L (v1 st) (v3 st)) q \/ near_edge (L (v2 st) (v3 st)) q.
+Proof.
+  intros Hok Ha Hq. destruct (points_closed_or_edge t q Hok Ha Hq) as [H|H]; [left; assumption|right].
+  unfold tri_fill_edges, tri_edge_points in H. assert (E : (area_doubled t =? 0) = false) by lia. rewrite E in H.
+  cbv zeta. rewrite !in_app_iff in H. destruct H as [H|[H|H]]; [left | right; left | right; right]; apply line_pixel_near, H.
+Qed.
+
+(* colinear vertices: every yielded point is a pixel of the line between the extreme vertices *)
+Theorem points_deg_on_line t q : tri_ok t -> area_doubled t = 0 -> In q (tri_points t) ->
+  In q (line_points (L (v1 (sorted_yx t)) (v3 (sorted_yx t)))).
+Proof.
+  intros Hok Ha Hq. destruct (points_between_edge_pixels t q Hok Hq) as (a & b & Hpa & Hpb & Hab).
+  unfold tri_fill_edges in Hpa, Hpb. assert (E : (area_doubled t =? 0) = true) by lia. rewrite E in Hpa, Hpb.
+  rewrite (point_eta q). apply (line_row_run _ a b); try assumption.
+  pose proof (sorted_ys t) as Hs. cbv zeta in Hs. unfold ldy. cbn [l_start l_end]. lia.
 Qed.
